@@ -93,6 +93,8 @@ def gen(tier, seed):
 def run(tier, seed):
     env.setup()
     res = Result("C02", tier, seed)
+    from .. import libccdloop
+    libccdloop.run(res, tier, seed)       # loop explorer GjkLibccd.tla: model checking + stateful trace validation of real runs
     recs, meta = gen(tier, seed)
     byid = {r["id"]: r for r in recs}
     rejects = trace.judge(recs, "narrow", "NarrowTrace", "NarrowTrace.cfg", "c02", res)
